@@ -465,7 +465,7 @@ Lemma t_poll_write_spec offer w : offer <> [] ->
     wstep w w' /\ n <= len offer /\
     ((wscript w = [] /\ wscript w' = [] /\ n = len offer) \/ (length (wscript w') < length (wscript w))%nat) /\
     (wscript w = [] -> n <> 0)
-  | (PReady (inr k), w') => wstep w w' /\ (length (wscript w') < length (wscript w))%nat /\ k = EK_Transport
+  | (PReady (inr k), w') => wstep w w' /\ (length (wscript w') < length (wscript w))%nat /\ (k = EK_Transport \/ k = EK_Aborted)
   | (PWake, w') => wstep w w' /\ (length (wscript w') < length (wscript w))%nat
   | (PBlock, _) => False
   end.
@@ -480,7 +480,9 @@ Proof.
     destruct (k =? W_ZERO).
     { split; [apply Hs|]. split; [lia|]. split; [right; unfold w_set_w; cbn [wscript length]; lia|discriminate]. }
     destruct (k =? W_ERR).
-    { split; [apply Hs|]. split; [unfold w_set_w; cbn [wscript length]; lia|reflexivity]. }
+    { split; [apply Hs|]. split; [unfold w_set_w; cbn [wscript length]; lia|left; reflexivity]. }
+    destruct (k =? W_ERR_AB).
+    { split; [apply Hs|]. split; [unfold w_set_w; cbn [wscript length]; lia|right; reflexivity]. }
     split; [apply Hs|]. split; [lia|]. split; [right; unfold w_set_w; cbn [wscript length]; lia|discriminate].
 Qed.
 
@@ -612,8 +614,8 @@ Proof.
   apply (stream_ok_eq p p' K2). exact G2.
 Qed.
 
-Lemma rgood_transfer r p' wr lk : rgood r -> RI p' -> pkeep (rsp r) p' -> bytes_ok (raw_bytes p') ->
-  wr = rwriteable r -> rgood (mkR p' wr lk).
+Lemma rgood_transfer r p' wr lk ab : rgood r -> RI p' -> pkeep (rsp r) p' -> bytes_ok (raw_bytes p') ->
+  wr = rwriteable r -> rgood (mkR p' wr lk ab).
 Proof.
   intros [G W] R' K B' ->. split; [cbn [rsp]; eapply pgood_transfer; eassumption|].
   destruct K as (K1 & K2 & K3). unfold wr_inv in *. cbn [rsp rwriteable]. rewrite K1, K2. exact W.
@@ -727,7 +729,7 @@ Lemma okeep_rgood r r' : rgood r -> okeep r r' -> rgood r' /\ pkeep (rsp r) (rsp
 Proof.
   intros G (R' & O & W). destruct (osame_views _ _ O) as (V1 & V2 & V3 & V4 & V5 & V6).
   split; [|split; [exact V4|exact V5]].
-  destruct r' as [p' wr' lk']. cbn [rsp rwriteable] in *. apply (rgood_transfer r); try assumption.
+  destruct r' as [p' wr' lk' ab']. cbn [rsp rwriteable] in *. apply (rgood_transfer r); try assumption.
   rewrite V2. apply G.
 Qed.
 
@@ -735,13 +737,13 @@ Lemma poll_output_ok : forall fuel r w, RI (rsp r) ->
   (length (wscript w) + (match output_buffer (rsp r) with [] => 0 | _ => 1 end) + 1 <= fuel)%nat ->
   match poll_output fuel r w with
   | (PReady (inl _), r', w') => okeep r r' /\ wstep w w' /\ output_buffer (rsp r') = []
-  | (PReady (inr k), r', w') => okeep r r' /\ wstep w w' /\ (k = EK_WriteZero \/ k = EK_Transport)
+  | (PReady (inr k), r', w') => okeep r r' /\ wstep w w' /\ (k = EK_WriteZero \/ k = EK_Transport \/ k = EK_Aborted)
   | (PWake, r', w') => okeep r r' /\ wstep w w' /\ (length (wscript w') < length (wscript w))%nat
   | (PBlock, _, _) => False
   end.
 Proof.
   induction fuel as [|f IH]; intros r w HRI Hf; [lia|]. cbn [poll_output].
-  assert (SELF : forall lk, okeep r (mkR (rsp r) (rwriteable r) lk)).
+  assert (SELF : forall lk, okeep r (mkR (rsp r) (rwriteable r) lk (raborted r))).
   { intros lk. split; [exact HRI|]. split; [apply osame_refl|reflexivity]. }
   destruct (output_buffer (rsp r)) as [|x out] eqn:Eo.
   { split; [apply SELF|]. split; [apply wstep_refl|exact Eo]. }
@@ -750,7 +752,7 @@ Proof.
   - destruct P as (S1 & Hn & Hw & Hz).
     destruct (N.eqb_spec n 0) as [E0|E0].
     { split; [apply SELF|]. split; [exact S1|left; reflexivity]. }
-    set (r1 := mkR (consume_output (rsp r) n) (rwriteable r) true).
+    set (r1 := mkR (consume_output (rsp r) n) (rwriteable r) true (raborted r)).
     assert (R1 : RI (rsp r1)) by (apply consume_output_RI; exact HRI).
     assert (K1 : okeep r r1).
     { split; [exact R1|]. split; [apply osame_consume|reflexivity]. }
@@ -808,7 +810,7 @@ Proof. destruct e; cbn [perr_kind]; unfold EK_Aborted, EK_InvalidData, EK_Other;
 
 (* the result of a parse, as a Request *)
 Lemma sparse_ckeep r w new dest p' s lk : rgood r -> sparse_keeps (rsp r) new dest p' s ->
-  ckeep r w (length new) (mkR p' (rwriteable r) lk) w (N.to_nat (dcount dest s)) /\
+  ckeep r w (length new) (mkR p' (rwriteable r) lk (raborted r)) w (N.to_nat (dcount dest s)) /\
   (dest <> None -> stream_buffer p' = []).
 Proof.
   intros G (K1 & K2 & K3 & K4 & K5 & K6 & K7). split; [|exact K6].
@@ -817,7 +819,7 @@ Proof.
   unfold rsize, psize. cbn [rsp]. unfold len in K7. lia.
 Qed.
 
-Lemma set_writeable_rgood p lk : rgood (mkR p false lk) -> is_final_stream (mkR p false lk) = true -> rgood (mkR p true lk).
+Lemma set_writeable_rgood p lk ab : rgood (mkR p false lk ab) -> is_final_stream (mkR p false lk ab) = true -> rgood (mkR p true lk ab).
 Proof.
   intros [G W] F. split; [exact G|]. unfold wr_inv, wr_inv_at, is_final_stream in *. cbn [rsp rwriteable] in *.
   destruct W as (x & Ex & Hx). rewrite Ex in *. symmetry. apply final_is_last; [exact Hx|].
@@ -852,13 +854,13 @@ Proof.
   destruct (s_end s || (0 <? s_stream s)) eqn:Edone.
   { cbn [rwriteable]. replace (dlv dest (s_stream s)) with (N.to_nat (dcount dest s)) by (destruct dest; reflexivity).
     destruct (rwriteable r) eqn:Ewr; cbn [negb andb]; [exact C|].
-    destruct (is_final_stream (mkR p' false (rlock r))) eqn:Efin; [|exact C].
+    destruct (is_final_stream (mkR p' false (rlock r) (raborted r))) eqn:Efin; [|exact C].
     destruct C as (C1 & C2 & C3 & C4). split; [apply set_writeable_rgood; assumption|]. split; [exact C2|]. split; [exact C3|exact C4]. }
-  set (r2 := mkR (compress p') (rwriteable r) (rlock r)).
+  set (r2 := mkR (compress p') (rwriteable r) (rlock r) (raborted r)).
   assert (C2 : ckeep r w (length new) r2 w 0 /\ (dest <> None -> stream_buffer (rsp r2) = [])).
   { destruct C as (C1 & C2 & C3 & C4). destruct (compress_views p' (proj1 (proj1 C1))) as (V1 & V2 & V3 & V4 & V5 & V6).
     split; [|intros Hx; subst r2; cbn [rsp]; rewrite V2; apply HD; exact Hx].
-    split; [apply (rgood_transfer (mkR p' (rwriteable r) (rlock r))); try assumption; try reflexivity; rewrite V3; apply C1|].
+    split; [apply (rgood_transfer (mkR p' (rwriteable r) (rlock r) (raborted r))); try assumption; try reflexivity; rewrite V3; apply C1|].
     split; [exact C2|]. split; [eapply pkeep_trans; [exact C3|exact V5]|].
     unfold rsize in *. subst r2. cbn [rsp] in *. rewrite V6. lia. }
   destruct C2 as [C2 HD2]. clearbody r2. clear C HD SF.
@@ -894,7 +896,7 @@ Proof.
     + destruct PR as (-> & NU). split; [exact C3|exact NU].
   - destruct PO as (K3 & S3 & Hk). split.
     + replace 0%nat with (0 + 0)%nat by reflexivity. eapply ckeep_trans; [exact C2|]. apply ckeep_okeep; [apply C2|exact K3|exact S3].
-    + destruct Hk as [->| ->]; unfold EK_WriteZero, EK_Transport; lia.
+    + destruct Hk as [->|[->| ->]]; unfold EK_WriteZero, EK_Transport, EK_Aborted; lia.
   - destruct PO as (K3 & S3 & Hw). split.
     + replace 0%nat with (0 + 0)%nat by reflexivity. eapply ckeep_trans; [exact C2|]. apply ckeep_okeep; [apply C2|exact K3|exact S3].
     + pose proof (ws_r _ _ S3). lia.
@@ -941,7 +943,7 @@ Proof.
       + destruct IL as [I1 I2]. split; [apply T; exact I1|]. pose proof (ws_w _ _ S1). pose proof (ws_r _ _ S1). lia.
       + destruct IL as [I1 I2]. split; [apply T; exact I1|exact I2].
     - destruct PO as (K1 & S1 & Hk). split; [apply ckeep_okeep; assumption|].
-      destruct Hk as [->| ->]; unfold EK_WriteZero, EK_Transport; lia.
+      destruct Hk as [->|[->| ->]]; unfold EK_WriteZero, EK_Transport, EK_Aborted; lia.
     - destruct PO as (K1 & S1 & Hw). split; [apply ckeep_okeep; assumption|]. pose proof (ws_r _ _ S1). lia.
     - contradiction. }
   unfold poll_input. cbv zeta.
@@ -1074,7 +1076,7 @@ Proof.
   assert (Hl : match last_opt (r_role (sreq (rsp r))) with Some y => is_input_stream y = true | None => True end).
   { destruct (last_opt (r_role (sreq (rsp r)))) as [l|] eqn:El; [|exact I]. apply (last_opt_facts _ _ El). }
   destruct (set_stream_views (rsp r) _ p' (proj1 G) Hl E) as (V1 & V2 & V3 & V4 & V5 & _).
-  set (r1 := mkR p' false (rlock r)).
+  set (r1 := mkR p' false (rlock r) (raborted r)).
   assert (G1 : rgood r1).
   { split; [exact V1|]. unfold wr_inv, wr_inv_at. subst r1. cbn [rsp rwriteable]. rewrite V2, V3.
     destruct (last_opt (r_role (sreq (rsp r)))) as [l|] eqn:El.
@@ -1103,11 +1105,11 @@ Proof.
 Qed.
 
 Definition bl_after (f : nat) (r : rstate) (w : world) (p' : sp) : res (option N * rstate) :=
-  let r1 := mkR p' (rwriteable r) (rlock r) in
+  let r1 := mkR p' (rwriteable r) (rlock r) (raborted r) in
   if is_record_boundary p' then Ok (None, r1) w
   else
     let p2 := compress p' in
-    let r2 := mkR p2 (rwriteable r) (rlock r) in
+    let r2 := mkR p2 (rwriteable r) (rlock r) (raborted r) in
     match await_read (io_fuel w 0) false (sinput_space p2) w with
     | Ok (inl []) w' => Ok (Some EK_UnexpectedEof, r2) w'
     | Ok (inl b) w' => boundary_loop maxc f b r2 w'
@@ -1121,7 +1123,7 @@ Lemma boundary_loop_S f new r w :
   | StPanic n => Halt (OPanic (1000 + n)) w
   | StOk p' _ => bl_after f r w p'
   | StErr p' EAbortRequest _ => bl_after f r w p'
-  | StErr p' e _ => Ok (Some (perr_kind e), mkR p' (rwriteable r) (rlock r)) w
+  | StErr p' e _ => Ok (Some (perr_kind e), mkR p' (rwriteable r) (rlock r) (raborted r)) w
   end.
 Proof. reflexivity. Qed.
 
@@ -1156,7 +1158,7 @@ Proof.
         split; [exact D3|]. pose proof (ws_b _ _ S1). lia. }
       destruct b as [|x b'].
       + cbn [bl_post rsp rwriteable]. split; [exact CW|]. split; [reflexivity|unfold EK_UnexpectedEof; lia].
-      + set (r2 := mkR (compress p') (rwriteable r) (rlock r)).
+      + set (r2 := mkR (compress p') (rwriteable r) (rlock r) (raborted r)).
         specialize (IH (x :: b') r2 w1 (proj1 C') (ws_ok _ _ S1 Wok) (Hb Wok) Hl ltac:(cbn [length] in Hn; lia)).
         unfold bl_post in *. destruct (boundary_loop maxc f (x :: b') r2 w1) as [[e r3] w3|o w3].
         * destruct IH as ((I1 & I2 & I3 & I4) & I5 & I6). split; [|split; [exact I5|exact I6]].
@@ -1169,7 +1171,7 @@ Proof.
       split; [exact D3|]. pose proof (ws_b _ _ S1). lia.
     - exact AR. }
   destruct (sparse maxc (rsp r) new None) as [p' s|p' e s|n]; [apply (AFTER p' s SF)| |contradiction].
-  assert (ERR : bl_post r w (length new) (Ok (Some (perr_kind e), mkR p' (rwriteable r) (rlock r)) w)).
+  assert (ERR : bl_post r w (length new) (Ok (Some (perr_kind e), mkR p' (rwriteable r) (rlock r) (raborted r)) w)).
   { cbn [bl_post rsp rwriteable]. split; [apply (sparse_pck _ _ _ _ _ _ G SF)|]. split; [reflexivity|apply perr_kind_range]. }
   destruct e; try exact ERR. apply (AFTER p' s SF).
 Qed.
@@ -1196,7 +1198,7 @@ Proof.
   intros G Wok Hd. unfold close_tail.
   destruct (set_stream_accepted (rsp r) None eq_refl) as (p2 & E). rewrite E.
   destruct (set_stream_views (rsp r) None p2 G I E) as (V1 & V2 & V3 & V4 & V5 & _).
-  set (r2 := mkR p2 (rwriteable r) (rlock r)).
+  set (r2 := mkR p2 (rwriteable r) (rlock r) (raborted r)).
   pose proof (record_boundary_ok r2 w V1 Wok) as RB. unfold bl_post in RB.
   destruct (record_boundary maxc r2 w) as [[[k2|] r3] w2|o w2]; [apply RB| |exact RB].
   destruct RB as ((B1 & B2 & B3 & B4) & _ & _). subst r2. cbn [rsp] in *.
@@ -1245,7 +1247,7 @@ Proof.
       unfold rsize in H5. lia.
     - eapply wstep_trans; eassumption.
     - destruct C as [C1 C2]. split; [eapply wstep_trans; eassumption|eapply okhalt_step; eassumption]. }
-  destruct e as [k|]; [|exact CT]. destruct (k =? EK_Aborted); [exact CT|exact H2].
+  destruct e as [k|]; [|exact CT]. destruct ((k =? EK_Aborted) && raborted r1); [exact CT|exact H2].
 Qed.
 
 (* ---- StreamWriter ---- *)
@@ -1380,7 +1382,7 @@ Qed.
 
 (* A handler script is a list of numbers: 1 n (read n bytes), 2 (read to the end), 3 k (fill the buffer, consume k),
    4 s (set_stream(Some s)), 5 (writeable), 6 s n data (write data on stream s), 7 s (flush), 8 d c (return the
-   exit status (d, c)), 9 k (return an error).  A script is well-formed if it only uses these opcodes with
+   exit status (d, c)), 9 k (return an error), 10 n (read n bytes, return the read error if there is one).  A script is well-formed if it only uses these opcodes with
    their arities and every exit status is a value of ExitStatus.  With [strict = true] it is moreover required
    that every set_stream is accepted by the stream order at that point ([cur] is the active stream: writeable()
    moves it to the role's last stream); with [strict = false] a rejected set_stream is the handler's own
@@ -1396,7 +1398,8 @@ Inductive script_ok (strict : bool) (role : N) : option N -> list N -> Prop :=
 | SO_write cur s n rest : script_ok strict role cur (drop n rest) -> script_ok strict role cur (6 :: s :: n :: rest)
 | SO_flush cur s rest : script_ok strict role cur rest -> script_ok strict role cur (7 :: s :: rest)
 | SO_exit cur d c rest : In d EXITSTATUS_VALUES -> script_ok strict role cur (8 :: d :: c :: rest)
-| SO_fail cur k rest : script_ok strict role cur (9 :: k :: rest).
+| SO_fail cur k rest : script_ok strict role cur (9 :: k :: rest)
+| SO_readq cur n rest : script_ok strict role cur rest -> script_ok strict role cur (10 :: n :: rest).
 
 Definition okhalt70 (strict : bool) (w : world) (o : outcome) : Prop :=
   okhalt w o \/ (strict = false /\ o = OPanic 70).
@@ -1432,7 +1435,7 @@ Lemma run_handler_ok strict role cur script : script_ok strict role cur script -
   hpost strict r w (run_handler maxc f script r w).
 Proof.
   induction 1 as [cur|cur n rest H IH|cur rest H IH|cur k rest H IH|cur s rest Hacc H IH|cur rest H IH
-                  |cur s n rest H IH|cur s rest H IH|cur d c rest Hd|cur k rest];
+                  |cur s n rest H IH|cur s rest H IH|cur d c rest Hd|cur k rest|cur n rest H IH];
     intros f r w Hf G Wok Hrole Hcur; (destruct f as [|f]; [cbn [length] in Hf; lia|]); cbn [length] in Hf; cbn [run_handler].
   - (* end of script *)
     split; [apply hkeep_world with (w' := w); [apply hkeep_refl; exact G|apply wstep_ev]|apply exit_complete_in].
@@ -1471,7 +1474,7 @@ Proof.
     destruct (await_input maxc (io_fuel w 0) None r w) as [[[[c b]|e] r1] w1|o w1].
     + destruct (ckeep_hkeep _ _ _ _ _ AI) as [H1 S1].
       set (cc := N.min k (len (stream_buffer (rsp r1)))).
-      set (r2 := mkR (consume_stream (rsp r1) cc) (rwriteable r1) (rlock r1)).
+      set (r2 := mkR (consume_stream (rsp r1) cc) (rwriteable r1) (rlock r1) (raborted r1)).
       set (w2 := w_ev (w_ev w1 [3; 1; cc]) (stream_buffer (rsp r1))).
       pose proof H1 as (G1 & Sw1 & Q1 & B1 & Z1).
       destruct (consume_stream_views (rsp r1) cc (proj1 (proj1 G1))) as (V1 & V2 & V3 & V4).
@@ -1495,10 +1498,10 @@ Proof.
     assert (BAD : strict = false -> hpost strict r w (Halt (OPanic 70) w)).
     { intros Es. split; [apply wstep_refl|right; split; [exact Es|reflexivity]]. }
     assert (GOOD : forall p', set_stream (rsp r) (Some s) = SetOk p' ->
-              hpost strict r w (run_handler maxc f rest (mkR p' (rwriteable r) (rlock r)) (w_ev w [4; stream_code (stream p')]))).
+              hpost strict r w (run_handler maxc f rest (mkR p' (rwriteable r) (rlock r) (raborted r)) (w_ev w [4; stream_code (stream p')]))).
     { intros p' E. pose proof (set_stream_ok_accepted _ _ _ E) as A. rewrite Hrole, Hcur in A.
       destruct (set_stream_views (rsp r) (Some s) p' (proj1 G) (accepts_input _ _ _ A) E) as (V1 & V2 & V3 & V4 & V5 & _).
-      set (r2 := mkR p' (rwriteable r) (rlock r)).
+      set (r2 := mkR p' (rwriteable r) (rlock r) (raborted r)).
       assert (G2 : rgood r2).
       { split; [exact V1|]. pose proof (proj2 G) as W. unfold wr_inv, wr_inv_at in *. subst r2. cbn [rsp rwriteable].
         rewrite V2, V3, Hrole. rewrite Hrole, Hcur in W. destruct (accepts_some_inv _ _ _ A) as [I1 I2].
@@ -1551,6 +1554,18 @@ Proof.
     split; [apply hkeep_world with (w' := w); [apply hkeep_refl; exact G|apply wstep_ev]|exact Hd].
   - (* 9 k *)
     split; [apply hkeep_world with (w' := w); [apply hkeep_refl; exact G|apply wstep_ev]|exact I].
+  - (* 10 n *)
+    pose proof (await_input_io (Some n) r w G Wok) as AI.
+    destruct (await_input maxc (io_fuel w 0) (Some n) r w) as [[[[c b]|k] r1] w1|o w1].
+    + destruct (ckeep_hkeep _ _ _ _ _ AI) as [H1 S1].
+      set (w2 := w_ev (w_ev w1 [1; 1; c]) b).
+      assert (H2 : hkeep r w r1 w2).
+      { apply hkeep_world with (w' := w1); [exact H1|]. eapply wstep_trans; apply wstep_ev. }
+      apply (hpost_cont _ _ _ _ _ _ H2). pose proof H2 as (G2 & S2 & Q2 & _).
+      apply IH; [lia|exact G2|exact (ws_ok _ _ S2 Wok)|rewrite Q2; exact Hrole|congruence].
+    + destruct AI as [AI _]. destruct (ckeep_hkeep _ _ _ _ _ AI) as [H1 S1].
+      split; [|exact I]. apply hkeep_world with (w' := w1); [exact H1|]. eapply wstep_trans; apply wstep_ev.
+    + destruct AI as [A1 A2]. split; [exact A1|left; exact A2].
 Qed.
 
 (* ---- the request parser makes progress: from the state Header it cannot finish without consuming ---- *)
@@ -1702,7 +1717,7 @@ Proof.
   2:{ cbn [fst snd]. destruct PR as [P1 P2]. split; [exact P1|left; exact P2]. }
   destruct PR as (G0 & S1 & B0 & St0 & _ & Hlt). specialize (Hlt Eh). cbn [length] in Hlt.
   set (role := r_role (sreq s0)) in *.
-  set (r0 := mkR s0 (len (role_input_streams role) <=? 1) false).
+  set (r0 := mkR s0 (len (role_input_streams role) <=? 1) false false).
   assert (GR0 : rgood r0).
   { split; [exact G0|]. unfold wr_inv. subst r0. cbn [rsp rwriteable]. fold role. rewrite St0. apply wr_inv_init. }
   set (w2 := fold_left _ _ _).
@@ -1744,7 +1759,7 @@ Proof.
       left. eapply okhalt_step; eassumption. }
   destruct st as [[d c]|k].
   - apply CLOSE. exact Hst.
-  - destruct (k =? EK_Aborted); [apply CLOSE; apply exit_complete_in|apply RET; exact S03].
+  - destruct ((k =? EK_Aborted) && raborted r1); [apply CLOSE; apply exit_complete_in|apply RET; exact S03].
 Qed.
 
 (* ---- main theorems ---- *)
@@ -1789,7 +1804,7 @@ End ConnTotal.
 Lemma into_stream_parser_rgood rp rq : parser_ok rp -> st rp = Done rq ->
   exists p0, into_stream_parser rp = inl p0 /\ pgood p0 /\ stream_buffer p0 = [] /\ raw_bytes p0 = held rp /\
              sreq p0 = rq /\ stream p0 = next_input_stream (r_role rq) None /\
-             rgood (mkR p0 (len (role_input_streams (r_role rq)) <=? 1) false).
+             rgood (mkR p0 (len (role_input_streams (r_role rq)) <=? 1) false false).
 Proof.
   intros (Q1 & Q2 & Q3 & Q4 & Q5) Est.
   destruct (into_stream_parser_init rp rq Est Q4) as (p0 & E0 & R0 & A0). exists p0. split; [exact E0|].
